@@ -9,6 +9,7 @@ import (
 	"os"
 	"os/exec"
 	"path/filepath"
+	"regexp"
 	"strings"
 	"sync"
 	"time"
@@ -33,7 +34,7 @@ func (o *Obligation) script(withModel bool) string {
 	for _, l := range vc.globalFacts() {
 		b.WriteString(l + "\n")
 	}
-	for _, l := range vc.body[:o.Prefix] {
+	for _, l := range sliceBody(vc.body[:o.Prefix], o.Goal) {
 		b.WriteString(l + "\n")
 	}
 	b.WriteString("(assert (not " + o.Goal + "))\n(check-sat)\n")
@@ -222,4 +223,95 @@ func dischargeAll(obls []*Obligation, dir string, budget int, requireAll bool, p
 		}(o)
 	}
 	wg.Wait()
+}
+
+var symRe = regexp.MustCompile(`\|[^|]+\|`)
+
+// sliceBody keeps the definitions the goal depends on and the assumptions that
+// share a (quoted) symbol with that cone, to a fixpoint.  Dropping assumptions
+// can only make an obligation harder to discharge, never easier: sound.
+func sliceBody(body []string, goal string) []string {
+	type line struct {
+		text string
+		def  string
+		syms []string
+		in   bool
+	}
+	lines := make([]line, len(body))
+	defIdx := map[string]int{}
+	for i, t := range body {
+		l := line{text: t}
+		if strings.HasPrefix(t, "(define-fun ") {
+			rest := t[len("(define-fun "):]
+			if j := strings.Index(rest, " "); j > 0 {
+				l.def = rest[:j]
+				defIdx[l.def] = i
+			}
+		}
+		l.syms = symRe.FindAllString(t, -1)
+		if strings.HasPrefix(t, "(assert (>= |alloc!") {
+			l.in = true // allocation-counter monotonicity: tiny, always relevant
+		}
+		lines[i] = l
+	}
+	rel := map[string]bool{}
+	var work []string
+	add := func(s string) {
+		if !rel[s] {
+			rel[s] = true
+			work = append(work, s)
+		}
+	}
+	for _, s := range symRe.FindAllString(goal, -1) {
+		add(s)
+	}
+	for _, l := range lines {
+		if l.in {
+			for _, s := range l.syms {
+				add(s)
+			}
+		}
+	}
+	// index: symbol -> assert lines mentioning it
+	byAssert := map[string][]int{}
+	for i, l := range lines {
+		if l.def == "" {
+			for _, s := range l.syms {
+				byAssert[s] = append(byAssert[s], i)
+			}
+		}
+	}
+	for len(work) > 0 {
+		s := work[len(work)-1]
+		work = work[:len(work)-1]
+		if i, ok := defIdx[s]; ok && !lines[i].in {
+			lines[i].in = true
+			for _, t := range lines[i].syms {
+				add(t)
+			}
+		}
+		if ubiquitous(s) {
+			continue
+		}
+		for _, i := range byAssert[s] {
+			if !lines[i].in {
+				lines[i].in = true
+				for _, t := range lines[i].syms {
+					add(t)
+				}
+			}
+		}
+	}
+	var out []string
+	for _, l := range lines {
+		if l.in || (l.def == "" && len(l.syms) == 0) {
+			out = append(out, l.text)
+		}
+	}
+	return out
+}
+
+// symbols that occur almost everywhere do not by themselves make an assumption relevant
+func ubiquitous(s string) bool {
+	return strings.HasPrefix(s, "|alloc!") || strings.HasPrefix(s, "|str!")
 }
